@@ -8,6 +8,7 @@
 From Coq Require Import Strings.String Strings.Byte.
 From Coq Require Import List NArith.
 From Goit Require Import Bytes World Repo MonadFacts.
+From Goit Require Import Inv ConnectedFacts.
 Import ListNotations.
 
 Theorem C15_world_is_trace_applied : forall a w w' o tr,
@@ -24,5 +25,29 @@ Proof.
   rewrite (cmd_fault_prefix e c w r w' tr k Hrun Hk). reflexivity.
 Qed.
 
+
+(* ---------- Part 2: every crash point of every command on every history ---------- *)
+(* Kill the process between any two modifying effects of any command, issued on
+   any reachable repository: what is on disk (the first k effects) is connected
+   — objects were written before the ref that names them, the blob before the
+   staging-area entry that names it, the branch before HEAD names it.  The one
+   exception is the HEAD clause during `branch --rename` (K8), refuted below. *)
+Theorem C15_crash_safe : forall h e c r w' tr k,
+  Forall action_ok h -> run_m (run_cmd e c) (run h w_empty) = (r, w', tr) -> ~ Bad w' ->
+  ConnectedNoHead (apply_effects (firstn k tr) (run h w_empty)) /\
+  (~ is_rename c -> Connected (apply_effects (firstn k tr) (run h w_empty))).
+Proof. exact reachable_crash_safe. Qed.
+
+(* K8, the rename window, is real: a connected world, a rename that ends in a
+   connected world, and in between (after the branch file was moved, before
+   HEAD is rewritten) HEAD names a branch that no longer exists *)
+Theorem C15_rename_window_refuted :
+  exists w e c, is_rename c /\ Connected w /\ ~ Bad (step_w (ACmd e c) w) /\ Connected (step_w (ACmd e c) w) /\
+    ~ HeadOk (apply_effects (firstn 1 (snd (step (ACmd e c) w))) w) /\
+    ~ Connected (apply_effects (firstn 1 (snd (step (ACmd e c) w))) w).
+Proof. exact crash_window_rename_refuted. Qed.
+
 Print Assumptions C15_world_is_trace_applied.
 Print Assumptions C15_crash_state_is_a_prefix.
+Print Assumptions C15_crash_safe.
+Print Assumptions C15_rename_window_refuted.
